@@ -304,6 +304,8 @@ func exec(c *gsim.Cluster, a []interface{}) *gsim.Step {
 		return c.Crash(str(arg(1)))
 	case "GossipRound":
 		return c.GossipRound(str(arg(1)))
+	case "RaceExpiry":
+		return c.RaceExpiry(str(arg(1)), str(arg(2)))
 	case "StalledStream":
 		return c.StalledStream(str(arg(1)), str(arg(2)))
 	case "Hostile":
